@@ -445,6 +445,48 @@ func (c *Ctx) waitGroupJoinable() {
 		}
 	}
 	c.Floor("waitgroup-joinable", len(adds), 1, "healthCheckWg.Add call sites")
+	// every Add(1) is immediately followed by the `go` it accounts for, whose function defers Done:
+	// the count can never exceed the number of goroutines that will call Done
+	for _, a := range adds {
+		key := p.FuncKey(a.fn) + "/add-go-pair"
+		k, isK := constInt(a.ci.Common().Args[1])
+		if !isK || k != 1 {
+			c.Fail("waitgroup-balanced", key, p.InstrPos(a.ci), "WaitGroup.Add is called with a count other than the constant 1 ("+p.Desc(a.ci.Common().Args[1], nil)+"): if fewer goroutines are started than were added (early exit from the spawn loop) Wait never returns and shutdown hangs")
+			continue
+		}
+		blk := a.ci.Block()
+		paired := false
+		after := false
+		for _, in := range blk.Instrs {
+			if in == ssa.Instruction(a.ci.(*ssa.Call)) {
+				after = true
+				continue
+			}
+			if !after {
+				continue
+			}
+			if g, ok := in.(*ssa.Go); ok {
+				paired = true
+				for _, cal := range p.Callees(g) {
+					done := false
+					for _, ci := range callsIn(cal) {
+						if d, ok := ci.(*ssa.Defer); ok && isWG(d, "Done") {
+							done = true
+						}
+					}
+					if !done {
+						paired = false
+					}
+				}
+				break
+			}
+			if _, isCall := in.(*ssa.Call); isCall {
+				break // something else runs between Add and go
+			}
+		}
+		c.Check(paired, "waitgroup-balanced", key, p.InstrPos(a.ci), "Add(1) is directly followed by the goroutine that defers Done()",
+			"Add(1) is not directly followed by a `go` whose function defers Done(): a path that skips the spawn leaves the counter raised and Stop blocks for ever")
+	}
 	// tracked goroutine: `wg.Add(1); go f()` with f deferring wg.Done()
 	tracked := func(g *ssa.Go) bool {
 		spawner := g.Parent()
@@ -547,8 +589,19 @@ func checkC03(c *Ctx) {
 		})
 	exec := p.Fn("internal/circuitbreaker", "CircuitBreaker", "Execute")
 	c.traceRule("panic-reraised", "circuitbreaker.(*CircuitBreaker).Execute", exec, c.cbSpec(true),
-		"a panic in fn is recorded as a failure and leaves Execute as a panic",
+		"a panic in fn is recorded as a failure and leaves Execute as a panic; every admitted request reports its outcome exactly once (a spent half-open trial is always accounted for)",
 		func(t *Trace) string {
+			if t.Has("call-fn") {
+				n := 0
+				for _, it := range t.Items {
+					if strings.HasPrefix(it.Label, "afterRequest(") {
+						n++
+					}
+				}
+				if n != 1 {
+					return fmt.Sprintf("an admitted request reports its outcome %d times: a half-open trial that is never reported leaves the breaker half-open with its budget spent, rejecting all traffic for ever", n)
+				}
+			}
 			if !t.Has("panic-in:dyn:func() error") {
 				return ""
 			}
